@@ -542,6 +542,11 @@ func NewCountingWindow
 guarded_by GlobalWindow.mu: groups, callback, stopped
 monitor GlobalWindow.mu inv gwInv
 
+pred specMatches(gw, j, t, f) := gw.outputSpecs[j].aggType == t && normalizeField(gw.outputSpecs[j].inputField) == normalizeField(f)
+pred trigSpecNamed(sp, ref, j) := sp.placeholder == fmt.Sprintf("__trig_%d__", j) && strings.ToLower(sp.aggType) == strings.ToLower(ref.triggerAggRef.funcName) && sp.inputField == ref.triggerAggRef.inputField
+pred trigSpecBound(gw, sp) := sp.prototype == nil && exists(idx, 0, len(gw.outputSpecs), specMatches(gw, idx, sp.aggType, sp.inputField) && forall(m, 0, idx, !specMatches(gw, m, sp.aggType, sp.inputField)) && sp.outputAlias == gw.outputSpecs[idx].alias)
+pred trigSpecOwn(gw, sp) := sp.outputAlias == "" && sp.prototype != nil && sp.prototype == aggregator.CreateBuiltinAggregator(sp.aggType) && forall(m, 0, len(gw.outputSpecs), !specMatches(gw, m, sp.aggType, sp.inputField))
+
 pred gwInv(gw) := gw.groups != nil && forallv(k, "", dom(gw.groups, k) ==> gw.groups[k] != nil && gw.groups[k].keyValues != nil && gw.groups[k].outputAggs != nil && gw.groups[k].triggerAggs != nil)
 
 // ---- TRIGGER WHEN text: AND / OR / = are lowered only as whole words outside quotes and identifiers
@@ -573,6 +578,7 @@ func hasWordAt
 func normalizeTriggerPredicate
   props C17 C04 C12
   option safety
+  option pure
   before WriteString logical-words-are-lowered-only-as-whole-words-outside-quotes-and-identifiers: ($arg1 == "&&" ==> inQuote == 0 && !isWordChar(prev) && hasWordAt(s, i, "and") && (i + 3 >= n || !isWordChar(s[i + 3]))) && ($arg1 == "||" ==> inQuote == 0 && !isWordChar(prev) && hasWordAt(s, i, "or") && (i + 2 >= n || !isWordChar(s[i + 2]))) && ($arg1 == "==" ==> inQuote == 0 && !isOpChar(prev))
   loop 1 invariant 0 <= i && i <= n && n == len(s)
   loop 1 decreases n - i
@@ -689,13 +695,34 @@ func (*GlobalWindow).Add
   modifies *
   ensures true
 
-extern (*GlobalWindow).buildOutputSpecs
-  props C17 C04 C12
-  modifies gw.outputSpecs
+pure github.com/rulego/streamsql/aggregator.CreateBuiltinAggregator
 
-extern (*GlobalWindow).buildTrigger
+func (*GlobalWindow).buildOutputSpecs
   props C17 C04 C12
+  requires gw != nil
+  modifies gw.outputSpecs
+  ensures every-output-aggregate-is-a-select-item-with-its-own-type-and-input-column: forall(j, len(old(gw.outputSpecs)), len(gw.outputSpecs), dom(gw.config.SelectFields, gw.outputSpecs[j].alias) && gw.outputSpecs[j].aggType == gw.config.SelectFields[gw.outputSpecs[j].alias] && gw.outputSpecs[j].inputField == ite(gw.config.FieldAlias[gw.outputSpecs[j].alias] == "", gw.outputSpecs[j].alias, gw.config.FieldAlias[gw.outputSpecs[j].alias]) && gw.outputSpecs[j].prototype != nil && gw.outputSpecs[j].prototype == aggregator.CreateBuiltinAggregator(gw.outputSpecs[j].aggType))
+  ensures earlier-specs-kept: len(gw.outputSpecs) >= len(old(gw.outputSpecs)) && forall(j, 0, len(old(gw.outputSpecs)), gw.outputSpecs[j] == old(gw.outputSpecs)[j])
+  ensures no-error: result == nil
+  loop 1 invariant len(gw.outputSpecs) >= len(old(gw.outputSpecs)) && forall(j, 0, len(old(gw.outputSpecs)), gw.outputSpecs[j] == old(gw.outputSpecs)[j])
+  loop 1 invariant forall(j, len(old(gw.outputSpecs)), len(gw.outputSpecs), dom(gw.config.SelectFields, gw.outputSpecs[j].alias) && gw.outputSpecs[j].aggType == gw.config.SelectFields[gw.outputSpecs[j].alias] && gw.outputSpecs[j].inputField == ite(gw.config.FieldAlias[gw.outputSpecs[j].alias] == "", gw.outputSpecs[j].alias, gw.config.FieldAlias[gw.outputSpecs[j].alias]) && gw.outputSpecs[j].prototype != nil && gw.outputSpecs[j].prototype == aggregator.CreateBuiltinAggregator(gw.outputSpecs[j].aggType))
+
+extern (*GlobalWindow).findAggCalls
+  props C17 C04 C12
+  option pure
+
+// the i-th aggregate call of the predicate becomes the i-th trigger spec, under its own placeholder, type and input column;
+// it is bound to a SELECT output aggregate exactly when findOutputSpec finds one, and gets a prototype of its own type otherwise
+func (*GlobalWindow).buildTrigger
+  props C17 C04 C12
+  requires gw != nil
   modifies gw.triggerSpecs, gw.rewrittenPredicate, gw.triggerCond
+  before findAggCalls the-predicate-is-normalised-before-the-aggregate-calls-are-looked-for: $arg1 == normalizeTriggerPredicate(old(predicate))
+  atreturn one-spec-per-aggregate-call-in-document-order: result == nil ==> len(gw.triggerSpecs) == len(refs) && forall(j, 0, len(gw.triggerSpecs), trigSpecNamed(gw.triggerSpecs[j], refs[j], j) && (trigSpecBound(gw, gw.triggerSpecs[j]) || trigSpecOwn(gw, gw.triggerSpecs[j])))
+  atreturn a-compiled-predicate-is-installed: result == nil ==> gw.triggerCond != nil
+  loop 1 invariant len(gw.triggerSpecs) == $i && gw.outputSpecs == old(gw.outputSpecs)
+  loop 1 invariant forall(j, 0, $i, trigSpecNamed(gw.triggerSpecs[j], refs[j], j))
+  loop 1 invariant forall(j, 0, $i, trigSpecBound(gw, gw.triggerSpecs[j]) || trigSpecOwn(gw, gw.triggerSpecs[j]))
 
 func NewGlobalWindow
   props C17 C04 C12
